@@ -52,8 +52,8 @@ SAMPLED = {"quick": 1400, "thorough": 24000}
 CASES = {t: len(_EXH[t]) + SAMPLED[t] for t in ("quick", "thorough")}
 FLOOR = {"quick": 1800, "thorough": 25000}
 FLOOR_COUNTERS = {
-    "quick": {"links_judged": 4000, "exhaustive_schedule_cases": len(_EXH["quick"]), "prefix_init_fits": 150, "threshold_toggles": 300, "estimators_with_a_past": 300, "small_unit_cases": 60, "configured_not_by_constructor": 500, "non_default_containers": 500, "reader_rounds": 2000, "carried_by:deepcopy": 100, "carried_by:pickle": 100, "thresholds_equal_to_a_score": 20, "float32_inputs": 50},
-    "thorough": {"links_judged": 60000, "exhaustive_schedule_cases": len(_EXH["thorough"]), "prefix_init_fits": 2500, "threshold_toggles": 5000, "estimators_with_a_past": 5000, "small_unit_cases": 1000, "configured_not_by_constructor": 9000, "non_default_containers": 9000, "reader_rounds": 30000, "carried_by:deepcopy": 1800, "carried_by:pickle": 1800, "thresholds_equal_to_a_score": 350, "float32_inputs": 800},
+    "quick": {"links_judged": 4000, "exhaustive_schedule_cases": len(_EXH["quick"]), "prefix_init_fits": 150, "threshold_toggles": 300, "estimators_with_a_past": 300, "small_unit_cases": 60, "configured_not_by_constructor": 500, "non_default_containers": 500, "reader_rounds": 2000, "carried_by:deepcopy": 100, "carried_by:pickle": 100, "thresholds_equal_to_a_score": 20, "float32_inputs": 50, "links_that_add_nothing": 100, "voronoi_links_with_calibrated_switching_point": 40},
+    "thorough": {"links_judged": 60000, "exhaustive_schedule_cases": len(_EXH["thorough"]), "prefix_init_fits": 2500, "threshold_toggles": 5000, "estimators_with_a_past": 5000, "small_unit_cases": 1000, "configured_not_by_constructor": 9000, "non_default_containers": 9000, "reader_rounds": 30000, "carried_by:deepcopy": 1800, "carried_by:pickle": 1800, "thresholds_equal_to_a_score": 350, "float32_inputs": 800, "links_that_add_nothing": 1500, "voronoi_links_with_calibrated_switching_point": 500},
 }
 RULE = (
     "case = one of 13 selector variants (FPS, PCov-FPS both directions, VoronoiFPS, CUR/PCov-CUR both directions with "
@@ -112,6 +112,8 @@ def gen(rng, tier, index):
         k = int(rng.integers(1, min(5, nfin) + 1))
         mid = sorted(int(x) for x in rng.choice(np.arange(1, nfin), size=min(k - 1, nfin - 1), replace=False)) if nfin > 1 else []
         sch = mid + [nfin]
+        if rng.random() < 0.15:  # a link that adds nothing: another n_to_select that resolves to the count already reached
+            sch = sorted(sch + [sch[int(rng.integers(len(sch)))]])
         kind = gens.pick(rng, KINDS)
         forms = "mixed"
         exhaustive = False
@@ -139,7 +141,9 @@ def gen(rng, tier, index):
     if cls == "PCovFPS":
         kw["mixing"] = float(gens.pick(rng, (0.0, 0.3, 0.5, 0.9)))
     if cls == "VoronoiFPS":
-        kw["full_fraction"] = float(gens.pick(rng, (0.05, 0.5, 1.0)))
+        kw["full_fraction"] = gens.pick(rng, (0.05, 0.5, 1.0, None))  # None: calibrated from timings inside fit
+        if kw["full_fraction"] is None and not exhaustive:
+            kw["initialize"], kw["random_state"] = "random", int(rng.integers(100))
     links = []
     for e in sch:
         nts = int(e) if forms == "int" else _form(rng, e, N)
@@ -294,6 +298,8 @@ def run(case, j):
     if case.get("past"):
         est.n_to_select = case["past"]["n"]
         j.lib("fit:earlier-history", sel.fit, est, case["past"]["X"], case["past"]["y"], spec)
+        if spec["cls"] == "VoronoiFPS" and spec["kw"].get("full_fraction") is None:
+            est.full_fraction = None  # the calibrated value was written into the parameter (known finding K3 of C09)
         j.note("estimators_with_a_past")
     diverged = False
     # whole-number data: every FPS distance is computed exactly, so a threshold EQUAL to a score is meaningful
@@ -330,6 +336,10 @@ def run(case, j):
             break
         j.ok("warm chain reaches the cold sequence (differences only from a tied step)", True)
         j.note("links_judged")
+        if li > 0 and link["resolved"] == links[li - 1]["resolved"]:
+            j.note("links_that_add_nothing")
+        if spec["cls"] == "VoronoiFPS" and spec["kw"].get("full_fraction") is None:
+            j.note("voronoi_links_with_calibrated_switching_point")
         j.ok("X_selected_ equals the cold fit's stored data", np.array_equal(st["Xs"], np.take(cold_state["Xs"], range(e), axis=axis)))
         if cold_state["ys"] is not None or st["ys"] is not None:
             good = st["ys"] is not None and cold_state["ys"] is not None and np.array_equal(st["ys"], cold_state["ys"][:e])
